@@ -2246,7 +2246,11 @@ class Transport(threading.Thread, ClosingContextManager):
                 self._expect_packet(MSG_KEXINIT)
 
                 while self.active:
-                    if self.packetizer.need_rekey() and not self.in_kex:
+                    if (
+                        self.packetizer.need_rekey()
+                        and not self.in_kex
+                        and not self._auth_reply_pending()
+                    ):
                         self._send_kex_init()
                     try:
                         ptype, m = self.packetizer.read_message()
@@ -2977,6 +2981,24 @@ class Transport(threading.Thread, ClosingContextManager):
             compress_in = self._compression_info[self.remote_compression][1]
             self._log(DEBUG, "Switching on inbound compression ...")
             self.packetizer.set_inbound_compressor(compress_in())
+
+    def _auth_reply_pending(self):
+        """
+        client with delayed compression ("zlib@openssh.com") negotiated, in
+        the middle of an authentication attempt: the server switches
+        compression on, in both directions, the moment it sends
+        USERAUTH_SUCCESS, so nothing but the auth dialogue itself may be on its
+        way to the server at that point.  A re-key that falls due meanwhile
+        is started once the attempt has been answered.
+        """
+        if self.server_mode or self.authenticated:
+            return False
+        delayed = "zlib@openssh.com"
+        if delayed not in (self.local_compression, self.remote_compression):
+            return False
+        handler = self.auth_handler
+        event = getattr(handler, "auth_event", None)
+        return event is not None and not event.is_set()
 
     def _parse_ext_info(self, msg):
         # Packet is a count followed by that many key-string to possibly-bytes
